@@ -153,6 +153,7 @@ class Env:
         self.snapshot_at_calls = False  # True: call/create events carry the persistent state at the moment of the call
         self.reentrancy_havoc = False  # True: persistent state after a call/create is arbitrary (callee may re-enter)
         self.code = code  # concrete bytes of the running code, when known
+        self.assumptions = []  # facts about the environment's answers (call success flag is 0/1, created address < 2**160)
         self.tag = t
         self.extcodesize = z3.Function("extcodesize" + t, W, W)
         self.extcode = z3.Function("extcode" + t, W, z3.ArraySort(W, B8))
@@ -318,7 +319,7 @@ def exec_op(op, a, w):
             gas, to, ao, al, ro, rl = a
             value = BV(0)
         k = f"!{w.ncalls + 1}{env.tag}"  # the i-th outgoing call on this path: same adversary in every compared program
-        ok = z3.BitVec("call_ok" + k, 256)
+        ok = z3.If(z3.Bool("call_ok" + k), BV(1), BV(0))  # the success flag is 0 or 1 (Yellow Paper)
         rsize = z3.BitVec("call_retsize" + k, 256)
         rdata = z3.Array("call_retdata" + k, W, B8)
         ev = (op, bv(gas), bv(to), bv(value), retbytes(w, ao, al))
@@ -331,7 +332,7 @@ def exec_op(op, a, w):
             w2 = w2.replace(storage=z3.Array("storage_after_call" + k, W, W), transient=z3.Array("transient_after_call" + k, W, W))
         # copy min(rl, rsize) bytes of return data to memory
         cnt = z3.If(z3.ULT(rsize, bv(rl)), rsize, bv(rl))
-        w2 = w2.replace(mem=w2.mem.copy_from(bv(ro), lambda i: z3.Select(rdata, i), cnt), pc=z3.And(w2.pc, z3.Or(ok == 0, ok == 1)))
+        w2 = w2.replace(mem=w2.mem.copy_from(bv(ro), lambda i: z3.Select(rdata, i), cnt))
         return ok, w2
     if op in ("create", "create2"):
         k = f"!{w.ncalls + 1}{env.tag}"
@@ -339,6 +340,7 @@ def exec_op(op, a, w):
         ev = (op, bv(a[0]), retbytes(w, a[1], a[2])) + ((bv(a[3]),) if op == "create2" else ())
         if env.snapshot_at_calls:
             ev = ev + ({"storage": w.storage, "transient": w.transient, "pc": w.pc},)
+        env.assumptions.append(z3.ULT(addr, BV(2**160)))
         w2 = w.replace(trace=w.trace + (ev,), retsize=z3.BitVec("create_retsize" + k, 256), retdata=z3.Array("create_retdata" + k, W, B8),
                        pc=z3.And(w.pc, z3.ULT(addr, BV(2**160))), ncalls=w.ncalls + 1)
         if env.reentrancy_havoc:
